@@ -194,8 +194,8 @@ def collapse(node):
     same block (and nowhere else in the statement), is replaced by E.  Applied
     to a template and to the code alike, it makes a multi-statement template
     independent of how many such temporaries the code uses."""
-    import copy
-    node = copy.deepcopy(node)
+    from .astutil import clone
+    node = clone(node)
 
     def reads(root, name):
         return [x for x in ast.walk(root) if isinstance(x, ast.Name) and
